@@ -179,6 +179,11 @@ func (f *File) prefixed(name string, alias bool) string {
 }
 
 func (f *File) isDotImport(path string) bool {
+	if def, ok := f.imports[path]; ok && def.name != "" && def.name != "_" {
+		// once a path has been registered its name is final: a later ImportAlias must neither
+		// turn it into a dot-import, nor turn a dot-import back into a named one
+		return def.name == "."
+	}
 	if id, ok := f.hints[path]; ok {
 		return id.name == "." && id.alias
 	}
